@@ -297,4 +297,215 @@ theorem evalPlain_indep : ∀ (batch : List Gate) (S : Store Bool),
       have e1 : (g0.evalPlain S).get g.in1 = S.get g.in1 := Store.get_set_ne _ _ _ _ h0.2
       rw [e0, e1]
 
+/-! ### broadcastXORs -/
+
+theorem wget_xorBitvec (r v : Words) (k : Nat) (hk : k < r.size) (hv : v.size = r.size) :
+    wget (xorBitvec r v) k = wget r k ^^^ wget v k := by
+  unfold xorBitvec
+  rw [wget_mkA _ _ _ hk]
+  simp [hv, hk]
+
+theorem openAt_fold (id W : Nat) : ∀ (all : List (Nat × Words)) (own : Words), own.size = W →
+    (∀ q ∈ all, q.2.size = W) →
+    (openAt id own all).size = W ∧
+    ∀ k, k < W → wget (openAt id own all) k =
+      wget own k ^^^ xorW (all.map fun q => if q.1 = id then 0#64 else wget q.2 k) := by
+  intro all
+  induction all with
+  | nil => intro own ho _; exact ⟨ho, fun k _ => by simp [openAt, xorW_nil]⟩
+  | cons q t ih =>
+    intro own ho hall
+    have hq := hall q List.mem_cons_self
+    have ht : ∀ q' ∈ t, q'.2.size = W := fun q' h => hall q' (List.mem_cons_of_mem _ h)
+    simp only [openAt, List.foldl_cons]
+    by_cases hid : q.1 = id
+    · simp only [hid, if_true]
+      obtain ⟨h1, h2⟩ := ih own ho ht
+      refine ⟨h1, fun k hk => ?_⟩
+      have := h2 k hk
+      simp only [openAt] at this
+      rw [this, List.map_cons, xorW_cons]
+      simp [hid]
+    · simp only [hid, if_false]
+      have hs : (xorBitvec own q.2).size = W := by simp [xorBitvec, mkA_size, ho]
+      obtain ⟨h1, h2⟩ := ih (xorBitvec own q.2) hs ht
+      refine ⟨h1, fun k hk => ?_⟩
+      have := h2 k hk
+      simp only [openAt] at this
+      rw [this, List.map_cons, xorW_cons, wget_xorBitvec _ _ _ (by omega) (by omega)]
+      simp only [hid, if_false]
+      rw [BitVec.xor_assoc]
+
+/-- Every party opens the same vector: the XOR of all parties' vectors. -/
+theorem open_all {n W : Nat} {ps : List Party} (hid : Ids n ps) (d : Party → Words)
+    (hsz : ∀ q ∈ ps, (d q).size = W) (p : Party) (hp : p ∈ ps) (k : Nat) (hk : k < W) :
+    wget (openAt p.id (d p) (ps.map fun q => (q.id, d q))) k = xorW (ps.map fun q => wget (d q) k) := by
+  obtain ⟨h1, h2⟩ := openAt_fold p.id W (ps.map fun q => (q.id, d q)) (d p) (hsz p hp)
+    (by intro q hq; simp only [List.mem_map] at hq; obtain ⟨r, hr, rfl⟩ := hq; exact hsz r hr)
+  rw [h2 k hk, List.map_map]
+  obtain ⟨pre, post, rfl, hpre, hpost⟩ := ids_split hid p hp
+  have e1 : (pre.map ((fun q : Nat × Words => if q.1 = p.id then 0#64 else wget q.2 k) ∘ fun q => (q.id, d q))) =
+      pre.map fun q => wget (d q) k := by
+    apply List.map_congr_left; intro q hq; simp [hpre q hq]
+  have e2 : (post.map ((fun q : Nat × Words => if q.1 = p.id then 0#64 else wget q.2 k) ∘ fun q => (q.id, d q))) =
+      post.map fun q => wget (d q) k := by
+    apply List.map_congr_left; intro q hq; simp [hpost q hq]
+  simp only [List.map_append, List.map_cons, xorW_append, xorW_cons, e1, e2, Function.comp, if_true]
+  generalize xorW (pre.map fun q => wget (d q) k) = A
+  generalize xorW (post.map fun q => wget (d q) k) = B
+  generalize wget (d p) k = C
+  apply BitVec.eq_of_getLsbD_eq; intro i hi
+  simp only [BitVec.getLsbD_xor, BitVec.getLsbD_zero]
+  cases A.getLsbD i <;> cases B.getLsbD i <;> cases C.getLsbD i <;> rfl
+
+/-! ### andBatchFlush at all parties -/
+
+/-- `nw.Pool.Get(len, nw.triples)` at one party (pool holds enough words). -/
+def getT (len : Nat) (p : Party) : Party :=
+  { p with trip := (p.trip.append p.pool len).1, pool := (p.trip.append p.pool len).2.1 }
+
+/-- steps 2, 3 and the result wires at one party -/
+def finP (batch : List Gate) (W : Nat) (ds es : List (Nat × Words)) (p : Party) : Party :=
+  { p with
+    wires := setOuts p.wires batch
+      (andZ p (openAt p.id (maskedDE p batch.toArray W).1 ds) (openAt p.id (maskedDE p batch.toArray W).2 es) W)
+    trip := p.trip.clear }
+
+theorem andStep_eq (batch : List Gate) (ps : List Party) (hne : batch.isEmpty = false)
+    (hall : ∀ p ∈ ps, (batch.length + 63) / 64 ≤ p.pool.words) :
+    andStep batch ps = some (
+      let W := (batch.length + 63) / 64
+      let ps1 := ps.map (getT batch.length)
+      ps1.map (finP batch W (ps1.map fun q => (q.id, (maskedDE q batch.toArray W).1))
+        (ps1.map fun q => (q.id, (maskedDE q batch.toArray W).2)))) := by
+  unfold andStep
+  have : (ps.all fun p => decide ((batch.length + 63) / 64 ≤ p.pool.words)) = true := by
+    simp only [List.all_eq_true, decide_eq_true_eq]; exact hall
+  simp only [hne, this, Bool.false_eq_true, if_false, Bool.not_true, List.map_map]
+  rfl
+
+theorem packIn_bit (w : Store Bool) (ba : Array Gate) (W : Nat) (sec : Bool) (j : Nat) (hj : j < ba.size)
+    (hW : j / 64 < W) :
+    (wget (packIn w ba W sec) (j / 64)).getLsbD (j % 64) = w.get (if sec then ba[j].in1 else ba[j].in0) := by
+  unfold packIn
+  rw [wget_mkA _ _ _ hW, getLsbD_wordOfBits]
+  have e : 64 * (j / 64) + j % 64 = j := Nat.div_add_mod j 64
+  have hlt : j % 64 < 64 := Nat.mod_lt _ (by decide)
+  simp only [hlt, decide_true, Bool.true_and, e, hj, dite_true]
+
+theorem getT_spec (len : Nat) (p : Party) (hw : p.trip.words = 0) (htw : p.trip.WF) (hp : p.pool.WF)
+    (hk : (len + 63) / 64 ≤ p.pool.words) :
+    (getT len p).id = p.id ∧ (getT len p).wires = p.wires ∧
+    (getT len p).trip.words = (len + 63) / 64 ∧ (getT len p).pool.WF ∧
+    (getT len p).pool.words = p.pool.words - (len + 63) / 64 ∧
+    (∀ i, i < (len + 63) / 64 → wget (getT len p).trip.a i = wget p.pool.a i ∧
+      wget (getT len p).trip.b i = wget p.pool.b i ∧ wget (getT len p).trip.c i = wget p.pool.c i) ∧
+    (∀ i, i < p.pool.words - (len + 63) / 64 → wget (getT len p).pool.a i = wget p.pool.a (i + (len + 63) / 64) ∧
+      wget (getT len p).pool.b i = wget p.pool.b (i + (len + 63) / 64) ∧
+      wget (getT len p).pool.c i = wget p.pool.c (i + (len + 63) / 64)) := by
+  obtain ⟨h1, h2, _, h4, h5, h6⟩ := append_fresh p.trip p.pool len htw hp hw hk
+  exact ⟨rfl, rfl, h1, h4, h2, h5, h6⟩
+
+theorem wget_andZ (p : Party) (dO eO : Words) (W k : Nat) (hk : k < W) :
+    wget (andZ p dO eO W) k =
+      ((wget p.trip.c k ^^^ (wget dO k &&& wget p.trip.b k)) ^^^ (wget eO k &&& wget p.trip.a k)) ^^^
+        (if p.id = 0 then wget dO k &&& wget eO k else 0#64) := by
+  unfold andZ
+  rw [wget_mkA _ _ _ hk]
+  split <;> simp
+
+theorem wget_maskedDE (p : Party) (ba : Array Gate) (W k : Nat) (hk : k < W) :
+    wget (maskedDE p ba W).1 k = wget (packIn p.wires ba W false) k ^^^ wget p.trip.a k ∧
+    wget (maskedDE p ba W).2 k = wget (packIn p.wires ba W true) k ^^^ wget p.trip.b k := by
+  unfold maskedDE
+  exact ⟨wget_mkA _ _ _ hk, wget_mkA _ _ _ hk⟩
+
+theorem size_maskedDE (p : Party) (ba : Array Gate) (W : Nat) :
+    (maskedDE p ba W).1.size = W ∧ (maskedDE p ba W).2.size = W := by
+  unfold maskedDE
+  exact ⟨mkA_size _ _, mkA_size _ _⟩
+
+/-- State of the parties between two AND batches: ids in order, `nw.triples`
+cleared, all pools well-formed with `L` words that are valid triples. -/
+structure St (n L : Nat) (ps : List Party) : Prop where
+  ids : Ids n ps
+  trip : ∀ p ∈ ps, p.trip.words = 0 ∧ p.trip.WF
+  pwf : ∀ p ∈ ps, p.pool.WF ∧ p.pool.words = L
+  valid : ∀ k, k < L →
+    xorW (ps.map fun p => wget p.pool.a k) &&& xorW (ps.map fun p => wget p.pool.b k) =
+      xorW (ps.map fun p => wget p.pool.c k)
+
+/-- XOR over the parties of the `z` words is the AND of the reconstructed
+input words (Beaver), for every word of the batch. -/
+theorem and_words {n L : Nat} {ps : List Party} (hst : St n L ps) (hn : 0 < n) (batch : List Gate)
+    (hW : (batch.length + 63) / 64 ≤ L) (k : Nat) (hk : k < (batch.length + 63) / 64) :
+    let W := (batch.length + 63) / 64
+    let ps1 := ps.map (getT batch.length)
+    let ds := ps1.map fun q => (q.id, (maskedDE q batch.toArray W).1)
+    let es := ps1.map fun q => (q.id, (maskedDE q batch.toArray W).2)
+    xorW (ps1.map fun q => wget (andZ q (openAt q.id (maskedDE q batch.toArray W).1 ds)
+        (openAt q.id (maskedDE q batch.toArray W).2 es) W) k) =
+      xorW (ps.map fun p => wget (packIn p.wires batch.toArray W false) k) &&&
+      xorW (ps.map fun p => wget (packIn p.wires batch.toArray W true) k) := by
+  intro W ps1 ds es
+  have hid1 : Ids n ps1 := by
+    have := hst.ids
+    unfold Ids at this ⊢
+    simp only [ps1, List.map_map]
+    exact this
+  have hspec : ∀ p ∈ ps, _ := fun p hp =>
+    getT_spec batch.length p (hst.trip p hp).1 (hst.trip p hp).2 (hst.pwf p hp).1
+      (by rw [(hst.pwf p hp).2]; exact hW)
+  -- what every party opens
+  have hD : ∀ q ∈ ps1, wget (openAt q.id (maskedDE q batch.toArray W).1 ds) k =
+      xorW (ps1.map fun r => wget (maskedDE r batch.toArray W).1 k) := fun q hq =>
+    open_all hid1 (fun r => (maskedDE r batch.toArray W).1) (fun r _ => (size_maskedDE r _ _).1) q hq k hk
+  have hE : ∀ q ∈ ps1, wget (openAt q.id (maskedDE q batch.toArray W).2 es) k =
+      xorW (ps1.map fun r => wget (maskedDE r batch.toArray W).2 k) := fun q hq =>
+    open_all hid1 (fun r => (maskedDE r batch.toArray W).2) (fun r _ => (size_maskedDE r _ _).2) q hq k hk
+  generalize hDk : xorW (ps1.map fun r => wget (maskedDE r batch.toArray W).1 k) = D at hD
+  generalize hEk : xorW (ps1.map fun r => wget (maskedDE r batch.toArray W).2 k) = E at hE
+  have hz : (ps1.map fun q => wget (andZ q (openAt q.id (maskedDE q batch.toArray W).1 ds)
+        (openAt q.id (maskedDE q batch.toArray W).2 es) W) k) =
+      ps1.map fun q => ((wget q.trip.c k ^^^ (D &&& wget q.trip.b k)) ^^^ (E &&& wget q.trip.a k)) ^^^
+        (if q.id = 0 then D &&& E else 0#64) := by
+    apply List.map_congr_left
+    intro q hq
+    rw [wget_andZ _ _ _ _ _ hk, hD q hq, hE q hq]
+  rw [hz, xorW_map_xor, xorW_map_xor, xorW_map_xor, xorW_map_and_left, xorW_map_and_left,
+    xorW_only0 hid1 hn]
+  -- the triple words are the pool words
+  have ha : (ps1.map fun q => wget q.trip.a k) = ps.map fun p => wget p.pool.a k := by
+    simp only [ps1, List.map_map]
+    apply List.map_congr_left; intro p hp
+    exact ((hspec p hp).2.2.2.2.2.1 k hk).1
+  have hb : (ps1.map fun q => wget q.trip.b k) = ps.map fun p => wget p.pool.b k := by
+    simp only [ps1, List.map_map]
+    apply List.map_congr_left; intro p hp
+    exact ((hspec p hp).2.2.2.2.2.1 k hk).2.1
+  have hc : (ps1.map fun q => wget q.trip.c k) = ps.map fun p => wget p.pool.c k := by
+    simp only [ps1, List.map_map]
+    apply List.map_congr_left; intro p hp
+    exact ((hspec p hp).2.2.2.2.2.1 k hk).2.2
+  have hx : (ps1.map fun r => wget (maskedDE r batch.toArray W).1 k) =
+      ps1.map fun r => wget (packIn r.wires batch.toArray W false) k ^^^ wget r.trip.a k := by
+    apply List.map_congr_left; intro r _; exact (wget_maskedDE r _ _ _ hk).1
+  have hy : (ps1.map fun r => wget (maskedDE r batch.toArray W).2 k) =
+      ps1.map fun r => wget (packIn r.wires batch.toArray W true) k ^^^ wget r.trip.b k := by
+    apply List.map_congr_left; intro r _; exact (wget_maskedDE r _ _ _ hk).2
+  have hX : (ps1.map fun r => wget (packIn r.wires batch.toArray W false) k) =
+      ps.map fun p => wget (packIn p.wires batch.toArray W false) k := by
+    simp only [ps1, List.map_map]
+    apply List.map_congr_left; intro p hp
+    simp only [Function.comp, (hspec p hp).2.1]
+  have hY : (ps1.map fun r => wget (packIn r.wires batch.toArray W true) k) =
+      ps.map fun p => wget (packIn p.wires batch.toArray W true) k := by
+    simp only [ps1, List.map_map]
+    apply List.map_congr_left; intro p hp
+    simp only [Function.comp, (hspec p hp).2.1]
+  rw [hx, xorW_map_xor, hX, ha] at hDk
+  rw [hy, xorW_map_xor, hY, hb] at hEk
+  rw [ha, hb, hc, ← hst.valid k (by omega), ← hDk, ← hEk]
+  exact beaver_word _ _ _ _
+
 end Mpc.Gmw
